@@ -3824,6 +3824,14 @@ func (l *Lowerer) lowerFunction(f *parser.FunctionDecl) error {
 	// This ensures every control flow path ends with a Return statement.
 	ensureBlockReturns(&fn.Body)
 
+	// A function with a result must not fall off its end with a value-less
+	// return: after a loop that is only left by `return` (valid WGSL) the
+	// appended terminator is unreachable, but the back ends would still write
+	// `return;` into a non-void function. Return the zero value instead.
+	if fn.Result != nil {
+		l.giveValueToBareReturns(&fn.Body, fn.Result.Type)
+	}
+
 	// Check for unused local variables
 	l.checkUnusedVariables(f.Name)
 
@@ -9873,6 +9881,41 @@ func countStatementsDeep(block *parser.BlockStmt) int {
 		}
 	}
 	return count
+}
+
+// giveValueToBareReturns replaces every `Return{Value: nil}` in block by a
+// return of the zero value of typ (one shared ZeroValue expression).
+func (l *Lowerer) giveValueToBareReturns(block *[]ir.Statement, typ ir.TypeHandle) {
+	var zero *ir.ExpressionHandle
+	var walk func(b []ir.Statement)
+	walk = func(b []ir.Statement) {
+		for i := range b {
+			switch s := b[i].Kind.(type) {
+			case ir.StmtReturn:
+				if s.Value == nil {
+					if zero == nil {
+						h := l.addExpressionRaw(ir.Expression{Kind: ir.ExprZeroValue{Type: typ}})
+						zero = &h
+					}
+					v := *zero
+					b[i].Kind = ir.StmtReturn{Value: &v}
+				}
+			case ir.StmtBlock:
+				walk(s.Block)
+			case ir.StmtIf:
+				walk(s.Accept)
+				walk(s.Reject)
+			case ir.StmtSwitch:
+				for ci := range s.Cases {
+					walk(s.Cases[ci].Body)
+				}
+			case ir.StmtLoop:
+				walk(s.Body)
+				walk(s.Continuing)
+			}
+		}
+	}
+	walk(*block)
 }
 
 // ensureBlockReturns ensures every control flow path in a block ends with a Return.
